@@ -126,7 +126,7 @@ def run(ctx):
         wnotifs.append(ops)
     # events of the monitor-loop polls: the same scripts as the P leg, plus flapping outcomes
     qpolls = list(polls) + ["MHMHMH", "EHEHEH", "EMEMHB", "HMHHMMHEEH", "BMBMB", "H" * 121 + "MH", "E" * 125 + "H", "M" * 121 + "HM"]
-    qcal = ["EEE", "GGG", "MMM", "HHH", "BBB"]
+    qcal = []
 
     # ---------------- implementation ----------------
     lines = []
@@ -229,17 +229,9 @@ def run(ctx):
             why = prop_check_notify(ops, io, 120)
             if why:
                 failures.append({"case": {"write_state_event notifications (key, value) in order, MAX_STATE_COUNT as in the code": ops}, "why": why, "impl": "".join("1" if b else "0" for b in io)})
-    # events per poll: lines appended to the extension's log by the poll, minus the plain lines a poll of that
-    # kind writes (calibrated on the second and third of three equal polls, which emit nothing: 3 < 120)
-    base, q_notes = {}, []
-    for ps, raw in zip(qcal, raw_Q[:len(qcal)]):
-        if raw.startswith("!no-"):
-            raise RuntimeError("poll-event leg could not run: " + raw)
-        c = raw.split(",")
-        if len(c) == 3 and c[1] == c[2] and c[1].isdigit():
-            base[ps[0]] = int(c[1])
-        else:
-            q_notes.append("poll-event calibration unstable for kind %s: %s" % (ps[0], raw))
+    # events per poll: the telemetry events emitted during the poll's report_proxy_agent_aggregate_status call, read
+    # from the event files the real event-logger loop writes (plain log lines are not events and do not count)
+    base, q_notes = dict.fromkeys("EGMHB", 0), []
     q_compared = 0
     for ps, mo, raw in zip(qpolls, model_Q, raw_Q[len(qcal):]):
         if raw.startswith("!no-"):
@@ -314,7 +306,7 @@ def run(ctx):
         "evaluations": total,
         "distinct_nontrivial": distinct,
         "traces_validated_against_impl": total - len(disagreements),
-        "rule": "all boolean observation sequences up to length %d (exhaustive) + random sequences with failing stretches of 18..22/40 + long runs of 19/20/21/39/9999/10000/10001/25000 equal observations followed by every tail up to length 3 + notification scripts (max in {1,2,3,5,120}) + sequences started from StatusState::default() + monitor-loop level scripts (each poll = unreadable / garbage / version-mismatch / healthy aggregate status file, run through the real report_proxy_agent_aggregate_status) + state-notification scripts through the real write_state_event (flapping values, runs of 119/120/121/241, colliding key/value spellings; emission observed as the marker message in the extension log) + number of state events per poll for the poll scripts and flapping poll outcomes (log lines per poll, calibrated); non-trivial = sequence with both outcomes (or a long run / a notification script), distinct by content" % maxlen,
+        "rule": "all boolean observation sequences up to length %d (exhaustive) + random sequences with failing stretches of 18..22/40 + long runs of 19/20/21/39/9999/10000/10001/25000 equal observations followed by every tail up to length 3 + notification scripts (max in {1,2,3,5,120}) + sequences started from StatusState::default() + monitor-loop level scripts (each poll = unreadable / garbage / version-mismatch / healthy aggregate status file, run through the real report_proxy_agent_aggregate_status) + state-notification scripts through the real write_state_event (flapping values, runs of 119/120/121/241, colliding key/value spellings; emission observed as events in the files written by the real event_logger::start loop) + number of events per poll for the poll scripts and flapping poll outcomes; non-trivial = sequence with both outcomes (or a long run / a notification script), distinct by content" % maxlen,
         "exhaustive": False,
         "samples": [
             {"obs": "".join("1" if b else "0" for b in rnd[0]), "impl": impl_S[len(seqs)], "model": model_S[len(seqs)]},
@@ -322,7 +314,7 @@ def run(ctx):
             {"notify": notifs[0], "impl": impl_N[0], "model": model_N[0]},
             {"polls": polls[3], "impl": impl_P[3], "model": model_P[3]},
         ],
-        "input_distribution": {"exhaustive_sequences": len(seqs), "random_sequences": len(rnd), "long_runs": len(longs), "notification_scripts": len(notifs), "default_start_sequences": len(dseqs), "poll_level_scripts": len(polls), "write_state_event_scripts": len(wnotifs), "poll_event_scripts": len(qpolls), "poll_event_calibration": base,
+        "input_distribution": {"exhaustive_sequences": len(seqs), "random_sequences": len(rnd), "long_runs": len(longs), "notification_scripts": len(notifs), "default_start_sequences": len(dseqs), "poll_level_scripts": len(polls), "write_state_event_scripts": len(wnotifs), "poll_event_scripts": len(qpolls),
                                "error_outputs_seen": sum(o.count(2) for o in impl_S) + sum(o.count(2) for o in impl_R)},
     })
     ctx.assumptions += [
